@@ -330,7 +330,8 @@ Inductive BeginCase (s : sys) (p p' : op) : list event -> Prop :=
 | BC_stop_closed x :
     o_kind p = KStop -> get_actor s (o_tgt p) = Some x -> a_closed x = true ->
     o_ph p' = ODone (ROk 0) -> BeginCase s p p' [EvDone (o_id p) (ROk 0)]
-| BC_timeout inner :
+| BC_timeout inner x :
+    get_actor s (o_tgt p) = Some x -> a_closed x = false ->
     expired p s = true -> o_ph p' = ODone (RErr ETimeout) ->
     (inner = [] \/ (o_kind p = KAsk /\ inner = [EvAccept (o_tgt p) (o_id p) KAsk])) ->
     BeginCase s p p' (EvDone (o_id p) (RErr ETimeout) :: dl_events (o_tgt p) (o_id p) (o_fn p) CxElapsed ++ inner).
@@ -375,7 +376,7 @@ Proof.
         -- rewrite finish_now, record_dl_now, cancel_inner_now. exact Nw.
         -- intros o' Hne. rewrite finish_get_op. apply Nat.eqb_neq in Hne. rewrite Hne, record_dl_get_op, cancel_inner_get_op.
            apply Ot. apply Nat.eqb_neq. exact Hne.
-      * eapply BC_timeout; [exact He|reflexivity|right; split; [exact Hk|reflexivity]].
+      * eapply BC_timeout; [exact Hx|exact Hc|exact He|reflexivity|right; split; [exact Hk|reflexivity]].
     + exists p1, [EvAccept (o_tgt p) (o_id p) KAsk]. split; [constructor; assumption|].
       eapply BC_accept_ask; eassumption.
   - rewrite Eph. cbn [is_done]. rewrite Hexp. destruct (expired p s1) eqn:He.
@@ -388,6 +389,6 @@ Proof.
         -- rewrite finish_now, record_dl_now, cancel_inner_now. exact Nw.
         -- intros o' Hne. rewrite finish_get_op. apply Nat.eqb_neq in Hne. rewrite Hne, record_dl_get_op, cancel_inner_get_op.
            apply Ot. apply Nat.eqb_neq. exact Hne.
-      * eapply BC_timeout; [exact He|reflexivity|left; reflexivity].
+      * eapply BC_timeout; [exact Hx|exact Hc|exact He|reflexivity|left; reflexivity].
     + exists p1, []. split; [constructor; assumption|]. eapply BC_wait; eassumption.
 Qed.
